@@ -382,6 +382,18 @@ def gen_loader_cases(ck: Check):
         # such texts are compared with the model and checked by `loader_matrices`, but not required to load
         yield case("good_trailing" if trailing else "good", wrap_good(rng, n, F, D, rng.random() < 0.8, rng.random() < 0.4,
                                                                       trailing), None if trailing else "good", n, F, D, lb, ub)
+    # (3a) single large entries, up to just below the 10^15 limit, against a sparse partner matrix (the trivial upper bound
+    # stays below the limit): the loader's token range is the instance's value range (found missing by seeded change
+    # C09-loader-token-limit-1e12)
+    for v in (10 ** 9 + 1, 10 ** 12 - 1, 10 ** 12, 10 ** 12 + 1, 5 * 10 ** 13, 9 * 10 ** 14):
+        for n in (2, 3):
+            for big_in_flows in (False, True):
+                A = [0] * (n * n)
+                B = [0] * (n * n)
+                A[rng.choice([k for k in range(n * n) if k % (n + 1)])] = v          # one off-diagonal entry
+                B[rng.choice([k for k in range(n * n) if k % (n + 1)])] = 1
+                F, D = (A, B) if big_in_flows else (B, A)
+                yield case("good_big", wrap_good(rng, n, F, D, rng.random() < 0.5, False, None), "good", n, F, D)
     # (3b) random bad wrappings of the same tokens: straddling line, n not alone, both
     for _ in range(200 if quick else 1500):
         n = rng.choice([1, 2, 3, 4, 6])
